@@ -105,6 +105,14 @@ class Evaluator:
             e = ir.strip(s['e'])
             if e['k'] == 'c':
                 return     # ((void)0) asserts
+            if e['k'] == 'asg' and e['op'] == '=':
+                tgt = ir.strip(e['l'])
+                if tgt['k'] == 'mem':
+                    base = self.raw(self.ev(tgt['b'], fn, this, env, depth))
+                    if isinstance(base, Obj):
+                        base[tgt['f']] = self.ev(e['r'], fn, this, env, depth)
+                        return
+                raise NotPure('assignment to something other than an object field: ' + ir.pp(e))
             if e['k'] == 'cast' and ir.is_expr(e.get('e')) and ir.strip(e['e'])['k'] == 'c':
                 return
             raise NotPure('expression statement in a predicate: ' + ir.pp(e))
@@ -210,6 +218,10 @@ class Evaluator:
             if e.get('fn') is None:
                 raise NotPure('indirect call ' + ir.pp(e))
             g = self.F.fn(e['fn'])
+            if g is None and e.get('m') in ('memcmp', '__builtin_memcmp') and len(e.get('args', [])) == 3:
+                a = self.raw(self.ev(e['args'][0], fn, this, env, depth))
+                b = self.raw(self.ev(e['args'][1], fn, this, env, depth))
+                return 0 if a == b else 1      # byte arrays are modelled as one opaque value
             if g is None:
                 raise NotPure('call to a function without a body: ' + str(e.get('name')))
             obj = self.ev(e['obj'], fn, this, env, depth) if ir.is_expr(e.get('obj')) else None
